@@ -44,7 +44,7 @@ def all_terms(tier):
     out += [(t, "T1", b["L_T1"]) for t in G.tier1()]
     out += [(t, "T2", b["L_T2"]) for t in G.tier2(strict=False)]
     out += [(t, "T3", b["L_T3"]) for t in G.tier3(strict=False)]
-    out += [(t, "T4", b["L_T2"]) for t in G.tier4()] + [(t, "TD", b["L_T2"]) for t in G.discard_terms()]
+    out += [(t, "T4", b["L_T2"]) for t in G.tier4()] + [(t, "TD", b["L_T2"]) for t in G.discard_terms() + G.select_records() + G.zero_size_terms()]
     if tier == "thorough":
         out += [(t, "T5", b["L_T5"]) for t in G.tier5(strict=False)]
     return out
@@ -209,6 +209,26 @@ def dec_value(e):
 
 
 NESTED_BAD = ["x", b"zz", -1, 1 << 70, 1.5, None, [1]]
+# integers just outside / on the far side of the range of every narrow field width (a value valid for the unsigned reading of a
+# signed field and vice versa): used where the leaf holds an integer
+NESTED_BAD_INT = [2, 4, 7, 8, 9, 15, 16, 127, 128, 129, 255, 256, 32768, 65535, 65536, -2, -4, -5, -8, -9, -128, -129, -32768, -32769]
+
+
+def boundary_invalids(t):
+    """for an integer leaf term: the values around both ends of its range and of the range of the other signedness"""
+    k = t[0]
+    if k == "Int":
+        w, signed = 8 * t[1], t[2]
+    elif k == "BytesInteger" and isinstance(t[1], int):
+        w, signed = 8 * t[1], t[2]
+    elif k == "BitsInteger" and isinstance(t[1], int):
+        w, signed = t[1], t[2]
+    else:
+        return []
+    if w <= 0:
+        return []
+    half, full = 1 << (w - 1), 1 << w
+    return sorted({-full, -half - 1, -half, -half + 1, -1, 0, half - 1, half, half + 1, full - 1, full, full + 1})
 
 
 def _positions(v, prefix=()):
@@ -233,12 +253,19 @@ def _replace(v, pos, f):
     return [(_replace(x, pos[1:], f) if i == pos[0] else x) for i, x in enumerate(v)]
 
 
+def _get(v, pos):
+    for p in pos:
+        v = v[p]
+    return v
+
+
 def corruptions(v):
     out = []
     for p in _positions(v)[:12]:
         kind, pos = p[0], p[1:]
         if kind == "leaf":
-            for b in NESTED_BAD:
+            leaf = _get(v, pos)
+            for b in NESTED_BAD + (NESTED_BAD_INT if isinstance(leaf, int) and not isinstance(leaf, bool) else []):
                 out.append(_replace(v, pos, lambda _x, b=b: b))
         else:
             out.append(_replace(v, pos, lambda lst: lst[:-1]))
@@ -264,7 +291,7 @@ def run_term(t, tn, L, r):
         if ctxdep:
             vals = []
         seen = set()
-        for v in vals + INVALID:
+        for v in vals + INVALID + boundary_invalids(t):
             key = repr(v)
             if key in seen:
                 continue
